@@ -1261,6 +1261,9 @@ def oracle_abstract_interfaces(ctx, thorough):
                 wname = "c_" + ((cls.lower() + "_") if cls else "") + doc_un_camel(name).lower() + sfx
                 m = re.search(r"subroutine %s\((.*?)end subroutine %s" % (re.escape(wname), re.escape(wname)), text, re.S)
                 if not m:
+                    # a function that needs no Fortran wrapper is bound under its Fortran name
+                    m = re.search(r"subroutine %s\((.*?)end subroutine %s" % (re.escape(wname[2:]), re.escape(wname[2:])), text, re.S)
+                if not m:
                     ctx.fail("full:abstract-interface:wrapper-missing", "no bind(C) interface %s" % wname, replay)
                     continue
                 pm = re.search(r"procedure\((\w+)\)\s*::\s*%s\b" % re.escape(arg.lower()), m.group(1))
